@@ -308,14 +308,17 @@ class C18(Check):
     def conc_steps(self, cfg, view):
         key = (canon(cfg), view)
         if key not in self._CONC_N:
-            stub = HostStub(clock=SimClock())
-            with Seams() as sm:
-                stub.install(sm, cmeta)
-                stub.set_faults({})
-                app, base, _, _ = self.build(cfg)
-                s = BatonScheduler(['T0'], [], 'line', CONC_WATCH)
-                s.run({'T0': lambda: call_app(app, make_environ('GET', base + ('json/' if view == 'json' else ''), headers={'Accept': 'text/html'}))})
-            self._CONC_N[key] = s.steps
+            try:
+                stub = HostStub(clock=SimClock())
+                with Seams() as sm:
+                    stub.install(sm, cmeta)
+                    stub.set_faults({})
+                    app, base, _, _ = self.build(cfg)
+                    s = BatonScheduler(['T0'], [], 'line', CONC_WATCH)
+                    s.run({'T0': lambda: call_app(app, make_environ('GET', base + ('json/' if view == 'json' else ''), headers={'Accept': 'text/html'}))})
+                self._CONC_N[key] = max(s.steps, 10)
+            except Exception:
+                self._CONC_N[key] = 400      # (the plans are made all the same: what goes wrong is the executor's to report)
         return self._CONC_N[key]
 
     def execute_conc(self, plan):
@@ -328,7 +331,11 @@ class C18(Check):
             stub.install(sm, cmeta)
             stub.set_faults({})
             for k in plan['conc']['ks']:
-                app, base, secrets, serving = self.build(cfg)        # nobody has called it yet
+                try:
+                    app, base, secrets, serving = self.build(cfg)        # nobody has called it yet
+                except Exception as e:
+                    res.violate(K + 'setup-failed:%s' % type(e).__name__, '%r %s' % (e, canon(cfg)))
+                    return res
                 got = {}
 
                 def task(name, view):
